@@ -25,7 +25,7 @@
       not compared (the property speaks about the defined behaviour). *)
 From Coq Require Import List ZArith NArith String Bool.
 From SCC Require Import Base.Sexp Lang.SynUtil Lang.FunSyn Lang.FunTy Lang.CoreSyn.
-From SCC Require Import Sem.AxSem Sem.CoreSem Sem.FunSem Model.RunBase Model.Fun2Core.
+From SCC Require Import Sem.AxSem Sem.CoreSem Sem.FunSem Model.RunBase Model.Fun2Core Model.Fun2CoreGuard.
 Import ListNotations.
 Open Scope string_scope.
 
@@ -77,6 +77,9 @@ Definition fun2core_tags (p : fcprog) (ncmp : nat) (has_exp : bool) : string :=
        ++ (if effect_sequenced p then " sequenced" else " unsequenced")
        ++ (if has_exp then " expected-ok" else "")
        ++ (if main_in_fragment p then " proved-fragment" else "")
+       (* inside the hypotheses of C02_fun2core_correct_fragment2 (no codata, no call of main, well-scoped,
+          capture guard): for these programs agreement of the two runs is a THEOREM about the model *)
+       ++ (if prog_guard p && nodup_str (map fdname (fcpdefs p)) then " proved-fragment2" else "")
        ++ " cmp" ++ n_to_string (N.of_nat ncmp)
        ++ " size" ++ n_to_string (N.log2 (size_fcprog p)).
 
